@@ -19,8 +19,8 @@ CHECKS = {
     "C02": dict(
         technique="deterministic simulation: two endpoints over a seeded hostile datagram network (loss, duplication, reordering, corruption, truncation, extension, key/nonce desynchronisation, bit-flip storms) with a ledger oracle",
         category="exploration",
-        text="Seeded search over network fault schedules: sender and receiver sessions of every C AEAD family (one-shot, incremental, masked, SIV, ISAP x three parameter sets) exchange packets through a simulated packet pool that drops, duplicates, reorders, corrupts (single/multi bit in ciphertext, tag, AD), truncates to any length, extends, and desynchronises keys and nonces; every delivery is judged against the ledger of what the sender really encrypted (accept iff identical tuple; plaintext and length on accept; zeroed buffer on one-shot reject). Thorough adds exhaustive single-bit flip storms over ciphertext||tag, AD, nonce and key of short packets. Sampling, not proof.",
-        note="Trusted: ledger model in the harness; 2^-128 accidental forgeries ignored; C++ wrappers are judged under C14/C17, not here.",
+        text="Seeded search over network fault schedules: sender and receiver sessions of every AEAD family (one-shot, incremental incl. multi-packet reinit with NULL key/nonce, masked, SIV, ISAP x three parameter sets; 14 backend x share configurations so that every masked backend family meets data shares 1..4) exchange packets through a simulated packet pool that drops, duplicates, reorders, corrupts (single/multi bit in ciphertext, tag, AD), truncates to any length, extends, and desynchronises keys and nonces; every delivery is judged against the ledger of what the sender really encrypted (accept iff identical tuple; plaintext and length on accept; zeroed buffer on one-shot reject). Bit-flip storms re-deliver one packet once per single-bit flip of ciphertext||tag, AD, nonce or key through fresh receiver objects (48 sampled bits in quick, every bit in thorough); for the C++ classes the storm receivers are keyed through the key constructor or set_key and judged by the same ledger. Sampling, not proof.",
+        note="Trusted: ledger model in the harness; 2^-128 accidental forgeries ignored; what a C++ session object accepts after a nonce history is judged under C14 (its nonce is private), its keying paths also under C17.",
         design="§3 W1, §4 C02"),
     "C14": dict(
         technique="deterministic simulation: stream-mode sessions over the simulated network with a 128-bit big-endian counter model; packet i must equal the library's one-shot under N+i",
@@ -31,14 +31,14 @@ CHECKS = {
     "C15": dict(
         technique="deterministic simulation: PRNG device with simulated entropy source (EINTR/EAGAIN/EIO), NV storage faults (errors, short/torn writes) and power loss; twin-tape influence runs; inverse-permutation state oracle",
         category="exploration",
-        text="Seeded histories of init/fetch/feed/reseed/save/load/ascon_random/free/power-loss on a simulated device: the entropy tape and its faults come from a wrapped getrandom(), the flash page and its faults from the ascon_storage_t callbacks. Oracles are the sentences of the property: same plan twice => same output; flipping one consumed tape byte or one fed byte changes every later block >= 16 bytes; after every init/fetch/feed/reseed/save/load p^-1(state) has a zero rate; a fetch after 16384 produced bytes draws from the source first; every status equals the injected health of source/storage. Sampling over histories x fault sequences.",
-        note="Trusted: harness p^-1 (self-tested against the library at start-up); Linux no-split guarantee for getrandom <= 256 bytes; status convention of random.h as repaired by the F12 fix commit.",
+        text="Seeded histories of init/fetch/feed/reseed/save/load/ascon_random/free/power-loss on a simulated device: the entropy tape and its faults come from a wrapped getrandom(), the flash page and its faults from the ascon_storage_t callbacks. Oracles are the sentences of the property: same plan twice => same output; flipping one consumed tape byte, one fed byte or one byte of a stored seed that is later loaded changes every later block >= 16 bytes; after every init/fetch/feed/reseed/save/load p^-1(state) has a zero rate; a fetch after 16384 produced bytes draws from the source first; every status equals the injected health of source/storage. Sampling over histories x fault sequences.",
+        note="Trusted: harness p^-1 (validated against embedded known answers and its own forward direction, not against the library; on a build whose permutation differs from the model the p^-1 oracle is skipped and counted); Linux no-split guarantee for getrandom <= 256 bytes; status convention of random.h as repaired by the F12 fix commit.",
         design="§3 W3, §4 C15"),
     "C16": dict(
         technique="deterministic simulation: real threads released one at a time by a seeded scheduler that may pre-empt at every instrumented load/store/function entry of the library; own byte-precise race detector, static-storage write detector and per-thread result comparison",
         category="exploration",
-        text="2..8 simulated caller threads run seeded plans over 18 operation kinds (hash, xof, the AEADs, incremental AEAD, SIV, PRF/HMAC/KMAC/HKDF/KDF, ascon_random, PRNG objects) on private objects, on a shared pre-computed ISAP key per variant, shared masked keys and shared constant inputs. The library's C sources are built with clang load/store/function-entry callbacks, so every memory access of library code is both seen by the harness's race detector (any two accesses of different threads to the same byte with at least one write, since the library has no synchronisation) and a potential pre-emption point decided by the seeded scheduler (Bernoulli rates 1/10..1/5000 or PCT-style change points). Three invariants: no race; no store to the executable's writable static storage (hidden global state); every thread's results equal its plan run alone. Passes: c64 (no blind spots) and asm (permutation modelled at the call boundary) in quick; plus c32, direct-xor, generic in thorough. Same seed => same switch sequence (checked under contention).",
-        note="Trusted: clang's sanitizer-coverage instrumentation to report every load/store of the C sources; the baton scheduler; races are judged on a clang -O1 build, not the shipped -O3 one (a race is a source-level property). C++ wrappers are not exercised here.",
+        text="2..8 simulated caller threads run seeded plans over 22 operation kinds (hash, xof incl. custom/fixed variants, the AEADs, incremental AEAD, SIV, ISAP, masked AEADs, PRF/HMAC/KMAC/HKDF/KDF/PBKDF2 in both permutation families, ascon_random, PRNG objects, and every C++ class through its encrypt/decrypt pair; a third of the packets are corrupted before decryption so that failure paths run too) on private objects, on a shared pre-computed ISAP key per variant, shared masked keys and shared constant inputs. The library's C sources are built with clang load/store/function-entry callbacks, so every memory access of library code is both seen by the harness's race detector (any two accesses of different threads to the same byte with at least one write, since the library has no synchronisation) and a potential pre-emption point decided by the seeded scheduler (Bernoulli rates 1/10..1/5000 or PCT-style change points). Three invariants: no race; no store to the executable's writable static storage (hidden global state); every thread's results equal its plan run alone. Passes: c64 (no blind spots), asm (permutation modelled at the call boundary), c32 with 3 shares and direct-xor with 4 shares in quick; all five backends in thorough. Same seed => same switch sequence (checked under contention).",
+        note="Trusted: clang's sanitizer-coverage instrumentation to report every load/store of the C sources; the baton scheduler; races are judged on a clang -O1 build, not the shipped -O3 one (a race is a source-level property). Allocation inside the library is observed through malloc/free hooks.",
         design="§3 W4, §4 C16"),
     "C17": dict(
         technique="deterministic simulation: seeded life-cycle histories of the C++ cipher/hash/xof objects (every construction and keying path, every overload) mirrored call by call through the C API; the harness translation unit is the compile obligation",
@@ -50,48 +50,48 @@ CHECKS = {
         technique="deterministic simulation: the tools' real main() in forked simulated processes over an in-memory file system with scripted syscall faults (EINTR/EAGAIN/short I/O/EIO/ENOSPC/open failure), crash points, tampering and entropy failure; thorough adds systematic k-th-call and every-byte sweeps",
         category="exploration",
         text="Seeded scenarios of asconcrypt (-e/-d/auto-detect/-o/-p/-k/-g/stdin-stdout) and asconsum (hash and -c check mode) run as simulated processes against a simulated OS; faults and crash points are attached to a specific call of a specific invocation. Oracles: round-trip identity; exit != 0 and no output file after wrong password, any bit flip, truncation (= writer crashed after any prefix), extension, any hard I/O fault or entropy failure; transient faults end in correct success or loud failure; asconsum output equals the library digest lines; check mode says OK exactly for unmodified files. Thorough adds fault_enumeration-style sweeps (k-th read/write fails for every k; every truncation length; one bit in every byte) on small files; the claimed level stays exploration because scenarios are sampled.",
-        note="Trusted: the simulated OS (simos.c) and the harness' container check via library calls; PBKDF2 rounds reduced by a wrapper in most runs; close() errors and list-file read errors in check mode are not judged (not in the statement).",
+        note="Trusted: the simulated OS (simos.c); whether a left-over file is a valid container is decided by the tool's own fault-free decrypt of it (no container format or PBKDF2 parameter is hard-coded in the oracle); PBKDF2 rounds reduced by a wrapper in most runs; close() errors and list-file read errors in check mode are not judged (not in the statement).",
         design="§3 W5, §4 C19"),
     "C20": dict(
         technique="deterministic simulation: seeded operation histories on a pool of aliased non-STL byte_array values mirrored by std::vector, with injected allocation failures; hex codec under generated hostile texts and capacities against a grammar model",
         category="exploration",
-        text="(a) Non-STL byte_array (library rebuilt with -DASCON_NO_STL): a pool of up to 6 variables goes through seeded histories of construct/copy/assign(self)/index/data()/resize/reserve/push/pop/clear/compare/iterate/destroy; after every operation every variable must equal its std::vector mirror (this exposes aliasing through the shared reference-counted buffer), comparisons must agree with std::vector, an allocation failure injected at the k-th allocation inside an operation must surface as std::bad_alloc without disturbing the other variables, and no block may stay allocated. (b) Hex codec and C++ helpers: texts from a grammar with whitespace, illegal characters (inserted or replacing a digit so parity varies), odd counts, NUL and high bytes, with exact/short/zero/larger capacities and guard bytes, against a 20-line reference decoder; encode-decode identity. Part (b) is model-based input sampling and is labelled so.",
+        text="(a) Non-STL byte_array (library rebuilt with -DASCON_NO_STL): a pool of up to 6 variables goes through seeded histories of construct/copy/assign(self)/index/data()/resize/reserve/push/pop/clear/compare/iterate/destroy; after every operation every variable must equal its std::vector mirror (this exposes aliasing through the shared reference-counted buffer), comparisons must agree with std::vector, an allocation failure injected at the k-th allocation inside an operation must surface as std::bad_alloc without disturbing the other variables, and no block may stay allocated. (b) Hex codec and C++ helpers: texts from a grammar with whitespace, illegal characters (half from a boundary list, half uniformly from all 228 byte values that are neither digits nor white space; inserted or replacing a digit so parity varies), odd counts, NUL and high bytes, with exact/short/zero/larger capacities and guard bytes, against a 20-line reference decoder; encode-decode identity. Part (b) is model-based input sampling and is labelled so.",
         note="Trusted: std::vector as the value-semantics reference; the reference decoder; replaceable global operator new as the allocation seam.",
         design="§3 W6, §4 C20"),
     "C09": dict(
         technique="deterministic simulation replayed across build configurations: the same seeded plans (worlds stream, channel, prng, keystore, cppobj, bytes) are executed in every backend/share build and their history digests must be identical; the acquire/release checker build runs the same interleaved multi-object histories",
         category="exploration",
-        text="Because a run is a pure function of its plan, 'same seed => same history digest' is an equality that can be checked across builds. Quick: 10 configurations (5 permutation backends at the default shares + 5 share combinations spread over asm/c64/c32) x 6 worlds, ~50k plans per configuration, every digest compared with the reference build; thorough: 5 backends + all 27 share combinations on asm, c64 and c32. A divergence is confirmed in fresh processes and minimised while the two builds still disagree. Second part: the worlds (interleaved histories on several live objects, incl. masked code) run on the CHECK_ACQUIRE_RELEASE build for several share settings; the library's own abort() is the violation.",
+        text="Because a run is a pure function of its plan, 'same seed => same history digest' is an equality that can be checked across builds. Quick: 14 configurations (5 permutation backends at the default shares + 9 share combinations chosen so that each masked backend family asm/c64/c32 meets data shares 1..4) x 6 worlds, ~32k plans per configuration, every digest compared with the reference build; thorough: 5 backends + all 16 valid share combinations on asm, c64 and c32. A divergence is confirmed in fresh processes and minimised while the two builds still disagree. Second part: the worlds (interleaved histories on several live objects, incl. masked code) run on the CHECK_ACQUIRE_RELEASE build for shares (4,2,4), (2,1,2), (3,3,3) (all 16 in thorough), whose digests are compared with the reference build too; the library's own abort() is the violation.",
         note="Trusted: plan generators are configuration independent (world masked is excluded from the differential part for that reason); digests contain outputs/statuses only. A function that is wrong in the same way in every configuration is not detected here (C01/C03/.. are not claimed).",
         design="§4 C09"),
     "C12": dict(
         technique="deterministic simulation re-executed under ASan+UBSan with poisoned canaries, exact-size buffers, guard pages for assembly code, null pointers for empty inputs and hostile argument vectors, over backend/share configurations",
         category="exploration",
-        text="All worlds (network, entropy/storage faults, object histories, masked tapes, C++ life cycles, byte_array with allocation faults, the tools in the simulated OS with hostile argv/files) are re-run in a gcc -fsanitize=address,undefined -fno-sanitize-recover build of the library, the C++ wrappers and the tools, over asm/c64/c32/direct-xor (quick) or 14 backend x share combinations incl. MAX_SHARES 2 and 3 (thorough). Every output buffer is exact-size at a seeded misalignment with ASan-poisoned canaries; a quarter of the runs place buffers against PROT_NONE pages so that uninstrumentable assembly is covered. Only sanitizer reports, guard faults, crashes and canary damage count.",
+        text="All worlds (network, entropy/storage faults, object histories, masked tapes, C++ life cycles, byte_array with allocation faults, the tools in the simulated OS with hostile argv/files) are re-run in a gcc -fsanitize=address,undefined -fno-sanitize-recover build of the library, the C++ wrappers and the tools, over nine backend x share combinations in quick (all five backends; key shares below the maximum and data shares below the key shares included) or 14 in thorough. Every output buffer is exact-size at a seeded misalignment with ASan-poisoned canaries; a quarter of the runs place buffers against PROT_NONE pages so that uninstrumentable assembly is covered. Only sanitizer reports, guard faults, crashes and canary damage count.",
         note="Trusted: ASan/UBSan of gcc 12; assembly code is covered only by guard pages/canaries; functional mismatches are deliberately ignored here.",
         design="§4 C12"),
     "C13": dict(
         technique="deterministic simulation with twin-secret executions: every plan runs twice in one process with different keys, messages, fed entropy and entropy tape; object bytes after free/clear()/destructor must be identical; release (-O3) build",
         category="exploration",
-        text="The histories of worlds stream, channel, prng, keystore and cppobj (every object type named in the property, at arbitrary points of its life incl. mid-stream free, re-init, copies, failed decrypts) are executed twice with the same plan and schedule but different secrets; after every free, clear() or destructor the raw bytes of the object are compared between the two executions. C++ objects are placement-constructed in harness-owned storage so their bytes stay readable. Built with the exact release flags (-O3) of the shipped library, on asm and c32 (quick) or all five backends (thorough).",
+        text="The histories of worlds stream, channel, prng, keystore and cppobj (every object type named in the property, at arbitrary points of its life incl. mid-stream free, re-init, copies, failed decrypts) are executed twice with the same plan and schedule but different secrets; after every free, clear() or destructor the raw bytes of the object are compared between the two executions. C++ objects are placement-constructed in harness-owned storage so their bytes stay readable. Built with the exact release flags (-O3) of the shipped library, on all five backends at the default shares plus four (quick) or 21 (thorough) reduced/enlarged share configurations, because object layouts depend on them.",
         note="Trusted: the twin construction (only dependence on secrets is flagged, constant residue is allowed); stack residue is out of scope (the statement is about the bytes of the object).",
         design="§4 C13"),
     "C10": dict(
         technique="deterministic simulation: masked word/state/key/AEAD operation histories with the random source replaced at link time by simulator-controlled tapes (zero, ones, constant, periodic, counter, random, adversarial), over share-count x backend configurations",
         category="exploration",
-        text="The five TRNG-mixer functions are replaced by a tape reader so that every 32/64-bit value the masked code draws is chosen by the simulator (this reaches the x86-64 assembly word backend too). Seeded histories over pools of masked words, states and keys (load/load_partial/load_32/store/store_partial/zero/xor/replace/randomize/from_xN/pad/separator; xN_permute for every starting round with preserved or fresh randomness; copy_from/to_x1 and share-count conversions; key init/extract/randomize; the three masked AEADs incl. tampered inputs) are compared, through public observers only, with the unmasked computation by the library itself. Re-randomisation must preserve the value and (random tape, distinct non-zero words) change every share. Quick: 5 configurations; thorough: all 27 share combinations on asm, c64 and c32.",
+        text="The five TRNG-mixer functions are replaced by a tape reader so that every 32/64-bit value the masked code draws is chosen by the simulator (this reaches the x86-64 assembly word backend too). Seeded histories over pools of masked words, states and keys (load/load_partial/load_32/store/store_partial/zero/xor/replace/randomize/from_xN/pad/separator; xN_permute for every starting round with preserved or fresh randomness; copy_from/to_x1 and share-count conversions; key init/extract/randomize; the three masked AEADs incl. tampered inputs) are compared, through public observers only, with the unmasked computation by the library itself. Re-randomisation must preserve the value and (random tape, distinct non-zero words) change every share. Quick: 15 configurations; thorough: all 16 valid share combinations on asm, c64 and c32 plus direct-xor and generic.",
         note="Trusted: the library's unmasked permutation/AEAD as reference; tape reader; value semantics of load_partial/replace/pad as documented in ascon-masked-word.h.",
         design="§3 W7, §4 C10"),
     "C06": dict(
         technique="deterministic simulation: histories on ISAP pre-computed keys (packets, save, restart from the saved image into clean or dirty memory, free) with KAT-validated reference models of ISAP v2.0 and the SIV construction as oracle",
         category="exploration",
-        text="History part (the simulation target): up to 3 interleaved pre-computed ISAP keys go through seeded sequences of encrypt/decrypt packets (incl. tampered), save to a byte image (the only durable state), restart (object discarded, reloaded from the image, possibly elsewhere and into dirty memory) and free; the raw key object must be bit-identical before and after every encrypt/decrypt/save, save(load(s)) == s, and every later packet must equal what the original key produces. Specification part: every ISAP and SIV output is compared with reference models written over the library's public permutation API and self-tested against the repository's KAT files at start-up; equal SIV inputs give equal outputs. The specification part is model-based input sampling and is labelled so.",
-        note="Trusted: the two reference models (fail => exit 2, never a VIOLATION); the repository's KAT files; the library permutation (C08 is not claimed).",
+        text="History part (the simulation target): up to 3 interleaved pre-computed ISAP keys go through seeded sequences of encrypt/decrypt packets (incl. tampered), save to a byte image (the only durable state), restart (object discarded, reloaded from the image, possibly elsewhere and into dirty memory) and free; the raw key object must be bit-identical before and after every encrypt/decrypt/save, save(load(s)) == s, and every later packet must equal what the original key produces. Specification part: every ISAP and SIV output is compared with reference models written over the harness' own reference permutation (validated against embedded known answers) and self-tested against the repository's KAT files at start-up - no library code is part of the oracle; equal SIV inputs give equal outputs. The specification part is model-based input sampling and is labelled so.",
+        note="Trusted: the two reference models and the reference permutation (a model that fails its own known answers => exit 2, never a VIOLATION); the repository's KAT files.",
         design="§3 W8, §4 C06"),
     "C07": dict(
         technique="deterministic simulation: seeded interleaved object histories (chunking, copy, re-init, free, dirty-memory reuse) checked against the library's own single-call form",
         category="exploration",
-        text="Seeded search over histories: up to 6 live incremental objects (hash, xof, prf, hmac, kmac, kdf, hkdf, incremental AEAD; both permutation families) are driven through randomly chunked absorb/squeeze/encrypt/decrypt calls, copies, re-inits, frees and re-use of dirty memory, interleaved by a seeded scheduler; after every output the transcript must equal the library's one-shot (or fresh single-call) result. Sampling, not proof; the right level because the quantifier is over unbounded call histories.",
+        text="Seeded search over histories: up to 6 live incremental objects (hash, xof, prf, hmac, kmac, kdf, hkdf, incremental AEAD; both permutation families) are driven through randomly chunked absorb/squeeze/encrypt/decrypt calls (declared lengths up to 2^29 for the length-prefixed modes, HKDF up to and across its 8160-byte limit), copies, re-inits, several packets per incremental AEAD session, frees and re-use of dirty memory, interleaved by a seeded scheduler; after every output the transcript must equal the library's one-shot (or fresh single-call) result. Sampling, not proof; the right level because the quantifier is over unbounded call histories.",
         note="Trusted: the library's one-shot functions as the reference (what they compute is C03/C04/C05, not claimed); gcc; the harness' transcript model. Absorb-after-squeeze is not generated.",
         design="§3 W2, §4 C07"),
 }
